@@ -163,9 +163,14 @@ def validate_iter_traces(ctx, rng):
         # binding demonstration: one corrupted field, one dropped event
         bad1 = [dict(e) for e in traces[0]]
         for e in bad1:
-            if e["ev"] == "recv" and e.get("cls") == "Result":
+            if e["ev"] == "recv" and e.get("cls") == "Result" and nt > 1:
                 e["arg"] = e["arg"] % nt + 1
                 break
+        else:
+            for e in bad1:     # no result message to corrupt (no or a single task): corrupt a message class instead
+                if e["ev"] == "send":
+                    e["cls"] = "Task" if e.get("cls") == "EOQ" else "EOQ"
+                    break
         bad2 = [dict(e) for e in traces[0]]
         del bad2[len(bad2) // 2]
         consts = iter_consts(size, nt, mw or 0, BOTH)
